@@ -153,6 +153,7 @@ func (self *VM) GetGlobals() map[string]value.Value {
 }
 
 func (self *VM) spawnCore() *Core {
+	vh("PreSpawnLock", -1, "")
 	self.Cores.Lock.Lock()
 	defer self.Cores.Lock.Unlock()
 	defer vh("SpawnUnlock", -1, "")
@@ -446,6 +447,7 @@ func (self *VM) WaitNonConsuming() {
 // Removes the core with the given number from the core list.
 // The new list is computed while the write lock is held: cores which are spawned concurrently must not get lost.
 func (self *VM) removeCore(coreNum uint) {
+	vh("PreWaitNilLock", int64(coreNum), "")
 	self.Cores.Lock.Lock()
 	defer self.Cores.Lock.Unlock()
 	defer vh("WaitNilUnlock", int64(coreNum), "")
@@ -471,6 +473,7 @@ func (self *VM) coresWithout(coreNum uint) []Core {
 
 // Returns a snapshot of the core list.
 func (self *VM) coreSnapshot() []Core {
+	vh("PreWaitRLock", -1, "")
 	self.Cores.Lock.RLock()
 	defer self.Cores.Lock.RUnlock()
 	defer vh("WaitSnapUnlock", -1, "")
@@ -501,6 +504,7 @@ func (self *VM) Wait() (coreNum uint, i *value.VmInterrupt) {
 				if i == nil {
 					self.removeCore(core.Corenum)
 				} else {
+					vh("PreWaitErrLock", int64(core.Corenum), "")
 					self.Cores.Lock.Lock()
 					vh("WaitErrLock", int64(core.Corenum), "")
 					(*self.CancelFunc)()
